@@ -179,6 +179,15 @@ def _options_case(args):
                     probs.append(({"clause": "default_level_order_or_coding_option_not_honoured", "call": call.split("(")[0] + ":" + key}, dict(base, got=x[:6], want=want[:6])))
                 elif labels != want_labels:
                     probs.append(({"clause": "labels_do_not_name_the_levels", "call": call.split("(")[0] + ":" + key}, dict(base, got=labels, want=want_labels)))
+    # levels= that do not cover the data are refused: an observed value left out, with or without an
+    # unobserved value put in its place (the two sets are then incomparable)
+    if pos == 1 and n >= 2:
+        stranger = "zz" if kind == "str" else 99999
+        for bad, why in ((lv[:-1], "observed_value_missing"), (lv[:-1] + [stranger], "observed_value_replaced_by_unobserved")):
+            for call in ("C(v, levels=LV)", "T(v, levels=LV)", "S(v, levels=LV)"):
+                st, dm = design.build("y ~ " + call, df, extra_namespace={"LV": bad})
+                if st == "ok":
+                    probs.append(({"clause": "levels_not_covering_the_data_accepted", "call": call.split("(")[0], "why": why}, {"formula": "y ~ " + call, "levels_arg": bad, "data": vals, "storage": storage}))
     for call, red_key, full_key, sp in forms:
         for icpt, key in ((True, red_key), (False, full_key)):
             text = "y ~ " + ("" if icpt else "0 + ") + call
